@@ -40,7 +40,7 @@ func blockingOp(ins ssa.Instruction) string {
 }
 
 func c19(c *Ctx) {
-	c.R.Explanation = "C19: the structural preconditions of the time bound and of crash-freedom of util.SafeCmdExecution are decided on the SSA of /repo: R-deadline = the *exec.Cmd that is run comes from exec.CommandContext with a context from context.WithTimeout(_, timeout parameter), and every caller passes a constant timeout in (0, 2s]; R-waitdelay = Cmd.WaitDelay is stored with a non-zero value on every path before Output/Run/Wait (with captured output only WaitDelay bounds the wait for pipe holders); R-noblock = no unbounded blocking operation (channel send/receive, blocking select, mutex/WaitGroup/Cond wait, Sleep) in the call tree of SafeCmdExecution outside the logging package (anything waited for outside the context deadline is not covered by the timeout); R-noassert = no comma-less type assertion on an error value in that call tree; R-err = in SafeCmdExecution every return reachable from a failure edge (check error, Output error, deadline) carries a non-nil error or an error-typed value from the failing call; R-parse / R-cmderr = command fan/sensor methods return parse errors and command errors (never ignored). Not decided: the wall-clock bound itself."
+	c.R.Explanation = "C19: the structural preconditions of the time bound and of crash-freedom of util.SafeCmdExecution are decided on the SSA of /repo: R-deadline = the *exec.Cmd that is run comes from exec.CommandContext with a context from context.WithTimeout(_, timeout parameter), and every caller passes a constant timeout in (0, 2s]; R-waitdelay = Cmd.WaitDelay is stored with a non-zero value on every path before Output/Run/Wait (with captured output only WaitDelay bounds the wait for pipe holders); R-noblock = no unbounded blocking operation (channel send/receive, blocking select, mutex/WaitGroup/Cond wait, Sleep) in the call tree of SafeCmdExecution outside the logging package (anything waited for outside the context deadline is not covered by the timeout); R-noassert = no comma-less type assertion on an error value in that call tree; R-procstate = cmd.ProcessState (nil when the command could not be started) is dereferenced or used as a method receiver (other than the nil-tolerant ExitCode/String) only under a nil test; R-err = in SafeCmdExecution every return reachable from a failure edge (check error, Output error, deadline) carries a non-nil error or an error-typed value from the failing call; R-parse / R-cmderr = command fan/sensor methods return parse errors and command errors (never ignored). Not decided: the wall-clock bound itself."
 	c.R.Assumptions = append(c.R.Assumptions,
 		"os/exec semantics: CommandContext kills the process at the deadline; WaitDelay (Go >= 1.20) force-closes the pipes after the kill/exit",
 		"ui logging (package internal/ui) holds its mutex only while printing and is treated as non-blocking")
@@ -215,6 +215,62 @@ func c19(c *Ctx) {
 	}
 	if na == 0 {
 		c.R.Ok("R-noassert", fk, fk, c.P.Pos(safe.Pos()), "no comma-less type assertion on an error value in the call tree")
+	}
+
+	// ---- R-procstate: (*exec.Cmd).ProcessState is nil until the process has been waited for ----------
+	// (a command that cannot be started leaves it nil); only ExitCode and String tolerate a nil receiver.
+	nilSafe := map[string]bool{"ExitCode": true, "String": true}
+	nps := 0
+	for _, fn := range c.SortedFuncs(tree) {
+		Instrs(fn, func(ins ssa.Instruction) {
+			u, ok := ins.(*ssa.UnOp)
+			if !ok || u.Op != token.MUL {
+				return
+			}
+			fa, ok := u.X.(*ssa.FieldAddr)
+			if !ok {
+				return
+			}
+			owner, name, ok := ir.FieldName(fa)
+			if !ok || name != "ProcessState" || owner == nil || owner.Obj().Pkg() == nil || owner.Obj().Pkg().Path() != "os/exec" {
+				return
+			}
+			refs := u.Referrers()
+			if refs == nil {
+				return
+			}
+			for _, r := range *refs {
+				use := ""
+				switch x := r.(type) {
+				case ssa.CallInstruction:
+					com := x.Common()
+					if st := ir.Callee(x).Static; st != nil && len(com.Args) > 0 && com.Args[0] == ssa.Value(u) && !nilSafe[st.Name()] {
+						use = "(*os.ProcessState)." + st.Name()
+					}
+				case *ssa.FieldAddr:
+					if x.X == ssa.Value(u) {
+						use = "field access"
+					}
+				case *ssa.UnOp:
+					if x.Op == token.MUL && x.X == ssa.Value(u) {
+						use = "dereference"
+					}
+				}
+				if use == "" {
+					continue
+				}
+				nps++
+				key := c.FK(fn) + "|" + use
+				if ir.HasFact(ir.BlockFacts(r.Block()), token.NEQ, func(a, b ssa.Value) bool { return ir.Resolve(a) == ssa.Value(u) && ir.IsNilConst(b) }) {
+					c.R.Ok("R-procstate", key, c.FK(fn), c.P.Pos(r.Pos()), use+" on cmd.ProcessState under ProcessState != nil")
+				} else {
+					c.R.Bad("R-procstate", key, c.FK(fn), c.P.Pos(r.Pos()), use+" on cmd.ProcessState without a nil test: the field is nil when the command could not be started (no exec permission, bad format, missing interpreter), so the failure path panics")
+				}
+			}
+		})
+	}
+	if nps == 0 {
+		c.R.Ok("R-procstate", fk, fk, c.P.Pos(safe.Pos()), "the call tree never dereferences cmd.ProcessState")
 	}
 
 	// ---- R-err: failure edges of SafeCmdExecution lead to error returns --------
